@@ -107,7 +107,7 @@ func (H) Generate(rng *simrt.Rand, prop, tier string) (any, simrt.Config) {
 		}
 		sc.Types = append(sc.Types, as)
 	}
-	sc.Action = []string{"close", "close", "close", "cancel", "none"}[rng.Intn(5)]
+	sc.Action = []string{"close", "close", "close", "cancel", "none", "deadline"}[rng.Intn(6)]
 	switch rng.Pick(2, 3, 3, 2) {
 	case 0:
 		sc.CloseBefore = sc.Action == "close" && rng.Chance(0.5)
@@ -117,6 +117,14 @@ func (H) Generate(rng *simrt.Rand, prop, tier string) (any, simrt.Config) {
 		sc.WaitNs = int64(time.Duration(rng.Intn(4000)) * time.Millisecond)
 	case 3:
 		sc.WaitNs = int64(rng.Intn(40)) * sc.MaxNs / 2
+	}
+	if sc.Action == "deadline" {
+		// the caller's context carries a deadline that expires at WaitNs: the
+		// subscription ends like a cancelled one, nobody calls anything
+		sc.CloseBefore, sc.WaitSteps = false, 0
+		if sc.WaitNs <= 0 {
+			sc.WaitNs = int64(time.Duration(1+rng.Intn(3000)) * time.Millisecond)
+		}
 	}
 	sc.Poll = !sc.Reconnect && rng.Chance(0.3)
 	// A long outage: every attempt fails quickly, nobody closes the client, and
@@ -137,7 +145,7 @@ func (H) Generate(rng *simrt.Rand, prop, tier string) (any, simrt.Config) {
 		}
 	}
 	sc.BufferedEnd = rng.Chance(0.5)
-	sc.Resub = sc.Reconnect && sc.Action != "none" && rng.Chance(0.3)
+	sc.Resub = sc.Reconnect && sc.Action != "none" && sc.Action != "deadline" && rng.Chance(0.3)
 	if sc.Action == "close" && rng.Chance(0.3) {
 		sc.IgnoreCtx = true
 		for _, as := range sc.Types {
@@ -422,6 +430,9 @@ func (H) Execute(x *common.Exec, s any) {
 		}, func() { w.rec("reset", -1, -1, "") })
 	}
 	ctx, cancel := context.WithCancel(context.Background())
+	if sc.Action == "deadline" {
+		ctx, cancel = context.WithTimeout(context.Background(), time.Duration(sc.WaitNs))
+	}
 	defer cancel()
 	var subErr error
 	var subRet, subRetNs, closeInv, closeInvNs, closeRet int64
@@ -429,9 +440,12 @@ func (H) Execute(x *common.Exec, s any) {
 	var closeErr error
 	doClose := func() {
 		closeInv, closeInvNs = simrt.Stamp(), int64(x.R.Now())
-		if sc.Action == "cancel" {
+		switch sc.Action {
+		case "cancel":
 			cancel()
-		} else {
+		case "deadline":
+			// the deadline expires at this very instant; nothing to call
+		default:
 			closeErr = c.Close()
 		}
 		closeRet = simrt.Stamp()
